@@ -381,6 +381,12 @@ func init() {
 				check("multibyte", mb, nil)
 			}
 		}
+		// frames with every body type, absent bodies, and bodies of more than 65,535 bytes
+		for _, t := range frameTypes() {
+			for _, v := range frameValues(g, t, 1, true) {
+				check("frame", v, nil)
+			}
+		}
 		// absent body / extension with every registered and some unregistered discriminators
 		for _, k := range keyedTypes() {
 			v := g.msgWithKey(k.Ty, k.E, false)
@@ -473,6 +479,35 @@ func init() {
 				w := corrWop(o, Op{K: "vstrs", CW: 2, PW: pw, E: "be"}, "", false, le, nil, BufMode{})
 				if n > limit && w.Class != "err" {
 					o.violate(Violation{Property: "C18", Kind: "direct", What: "an over-long element of a string list was not refused", Case: fmt.Sprintf("vstrs element length %d", n), Key: "wrap:elem"})
+				}
+			}
+		}
+		// an over-limit list INSIDE an element of a repeating group (the element's refusal must reach the caller)
+		for _, t := range schema.Types {
+			for i, op := range t.fieldOps() {
+				if op.K != "objs" {
+					continue
+				}
+				et := schema.Types[op.Ty]
+				for j, eop := range et.fieldOps() {
+					if eop.K != "nums" || eop.CW > 2 {
+						continue
+					}
+					limit := 1<<(8*uint(eop.CW)) - 1
+					v := g.msg(t.ID, true, 0)
+					good := g.msg(op.Ty, true, 1)
+					bad := g.msg(op.Ty, true, 1)
+					l := &Val{K: 'N'}
+					for k := 0; k <= limit; k++ {
+						l.Ns = append(l.Ns, uint64(k)&maxOf(eop.W))
+					}
+					bad.Fs[j] = l
+					v.Fs[i] = &Val{K: 'M', Fs: []*Val{good, bad, good}}
+					r := corrEnc(o, v, nil, g.mode())
+					if r.Class != "err" {
+						o.violate(Violation{Property: "C18", Kind: "direct", What: fmt.Sprintf("%s: an element of %s holding %d entries behind a %d-byte count encoded without error (%s)", t.QName(), t.Fields[i].Name, limit+1, eop.CW, r.Class),
+							Case: fmt.Sprintf("%s.%s[1].%s length %d", t.QName(), t.Fields[i].Name, et.Fields[j].Name, limit+1), Key: "nestedwrap:" + t.QName()})
+					}
 				}
 			}
 		}
